@@ -109,7 +109,10 @@ var c16Labels = []string{"1", "a", "b", "c", "note", "A B", "x*y", "2"}
 
 func runC16(c *Ctx) {
 	c.Rep.Rule = "a case is (configuration, document mixing footnote definitions and references); the id/href graph of the output is checked; distinct by hash; non-trivial = at least one definition and one reference"
-	cfgs := []Cfg{{Ext: "footnote"}, {Ext: "gfm+footnote", XHTML: true}, {Ext: "all", AutoID: true, Attr: true}}
+	// id prefixes: none, strings whose []byte conversion has spare capacity (9 and 17 bytes), a
+	// short one, and a prefix function returning a slice with spare capacity
+	cfgs := []Cfg{{Ext: "footnote"}, {Ext: "gfm+footnote", XHTML: true}, {Ext: "all", AutoID: true, Attr: true},
+		{Ext: "footnote", FnPrefix: "article1-"}, {Ext: "gfm+footnote", FnPrefix: "my-blog-article7-", XHTML: true}, {Ext: "footnote", FnPrefix: "p-", FnPrefixFunc: true}, {Ext: "all", FnPrefix: "d0c-", FnPrefixFunc: true, Unsafe: true}}
 	n := 25000
 	if !c.Quick() {
 		n = 600000
@@ -170,7 +173,7 @@ func runC16(c *Ctx) {
 		if e != "" || p != "" {
 			return "", false
 		}
-		errs, dangling, nItems, nRefs := footnoteErrors(out)
+		errs, dangling, nItems, nRefs := footnoteErrors(m.cf.stripFnPrefix(out))
 		nontrivial := nItems > 0 && nRefs > 0
 		if len(errs) > 0 {
 			return fmt.Sprintf("%s; output %.400q", strings.Join(errs[:min(len(errs), 3)], "; "), out), nontrivial
